@@ -3,7 +3,7 @@
    Offset(el, k); `elem_place s el k` the place (byte interval, offset) that Offset designates.  The end-to-end
    statement over apply() is decided on the implementation by the listing oracle of harness/c04.py. *)
 From Coq Require Import ZArith List Bool Arith.
-From GR Require Import Base.Result Adt.RefCache Adt.RefCacheProofs IR.State IR.Modify IR.Edit IR.Annot.
+From GR Require Import Base.Result Adt.RefCache Adt.RefCacheProofs IR.State IR.Modify IR.Edit IR.Annot IR.CfgClosedInsert IR.AnnotInsert.
 Import ListNotations.
 Open Scope Z_scope.
 
@@ -60,3 +60,31 @@ Example C04_nonvacuous :
     tab_get (nth 0 (otabs s') []) nb 1 = Some 7 /\ elem_place s' nb 1 = elem_place ex_state 0%nat 2 /\
     elem_place ex_state 0%nat 2 = Some (100%nat, 2).
 Proof. eexists; eexists; eexists. split; [vm_compute; reflexivity|]. repeat split; vm_compute; reflexivity. Qed.
+
+(* ===== the symbolic expressions of the edited interval after the steps of insert() between insert_split and the clean-up =====
+   (insert_body: C05_insert_is_its_steps.)  With the head block x = [boff x, boff x + bsize x) ending at the insertion point (what
+   insert_split leaves; base = boff x + offset is then the same place), `repl` bytes replaced by the patch's L bytes: the patch's expressions
+   sit at base + their offset inside the patch; an old expression in front of the insertion point is where it was; the ones in the replaced
+   bytes are gone; the ones behind have moved by L - repl; nothing else appears. *)
+Theorem C04_insert_body_symbolic_expressions :
+  forall s b first last lastk end_block added_ft bi offset repl code p pcfg pprox k,
+    0 <= repl -> NoDup (map fst (p_symex p)) ->
+    let x := the_blk s b in
+    let base := boff x + offset in
+    let E := boff x + bsize x in
+    let L := Z.of_nat (length (p_data p)) in
+    symex_at (insert_body s b first last lastk end_block added_ft bi offset repl code p pcfg pprox) bi k =
+    match dget (k - base) (p_symex p) with
+    | Some v => Some v
+    | None => if k <? E then symex_at s bi k else if k <? E + L then None else symex_at s bi (k - (L - repl))
+    end.
+Proof. exact insert_body_symex. Qed.
+
+(* non-vacuity: `call` patch (5 bytes, operand at 1) replaces 1 byte behind a 2-byte head in an interval with expressions at 0 and 4 *)
+Example C04_insert_body_example :
+  let s := mk_st [(0%nat, mk_blk KCode (Some 100%nat) 0 2); (1%nat, mk_blk KCode (Some 100%nat) 3 6)]
+                 [(100%nat, mk_ival 0 [235; 0; 144; 144; 232; 0; 0; 0; 0] [(1, 11); (5, 12)])] [(0%nat, [0%nat; 1%nat])]
+                 (RefCache.mk_rc [] []) [] [] [] [] [] [] [] [[]; []; []] [] [[]; []; []; []] None 900 in
+  let p := mk_patch [232; 0; 0; 0; 0] [(200%nat, KCode, 0, 5)] [] [] [] [(1, 13)] [(1, 4)] [] [] [] in
+  map (symex_at (insert_body s 0 200 200 KCode 1 None 100 2 1 true p [] []) 100%nat) [1; 3; 5; 9; 10] = [Some 11; Some 13; None; Some 12; None].
+Proof. vm_compute. reflexivity. Qed.
